@@ -404,10 +404,15 @@ fn chain_terms_doc(trivia: &Trivia, terms: &[Term]) -> Doc {
 
 /// Whether two adjacent chain terms must be joined by an explicit `~>`: written with a bare space
 /// they would re-parse as *one* construct. A bare `!` followed by an unnamed tuple reads as the
-/// general select form `! [sources]`.
+/// general select form `! [sources]`; a body-less function (also a spawned one) followed by a block
+/// reads as a function with that body.
 fn needs_explicit_pipe(previous: &Term, next: &Term) -> bool {
+    let bodyless_function =
+        |term: &Term| matches!(term, Term::Function(function) if function.body.is_none());
     match (previous, next) {
         (Term::Select(None, _), Term::Tuple(tuple)) => matches!(tuple.name, TupleName::Anonymous),
+        (Term::Function(_), Term::Block(_)) => bodyless_function(previous),
+        (Term::Spawn(inner, _), Term::Block(_)) => bodyless_function(inner),
         _ => false,
     }
 }
